@@ -54,22 +54,23 @@ mod bset__ser;
 mod opt_lat__ser;
 mod bool_lat__pari;
 mod lat_multi_improve__topar;
-mod count_paths__src1;
-mod neg_basic__pari;
-mod neg_basic__init;
-mod neg_basic__exppar;
-mod agg_lattice__par;
+mod count_paths__gen;
+mod neg_basic__ser;
+mod neg_basic__src0;
+mod neg_basic__perm2;
+mod agg_depth__ser;
+mod agg_lattice__to;
 mod neg_rec_after__exp;
-mod disj__ser;
-mod disj__src2;
-mod disj__permpar;
-mod pat_args__ser;
-mod rep_expr__exp;
-mod neg_in_disj__par;
-mod mac_basic__mrt;
-mod mac_basic__srcpar;
-mod mac_nested__ser;
-mod mac_disj__exp;
+mod agg_empty__to;
+mod disj__mrt;
+mod disj__srcpar;
+mod disj_nested__par;
+mod pat_args__exppar;
+mod multi_head_disj__pari;
+mod mac_basic__ser;
+mod mac_basic__src0;
+mod mac_basic__exppar;
+mod mac_nested__pari;
 
 fn lookup(name: &str) -> fn() -> Box<dyn Driven> {
    match name {
@@ -119,22 +120,23 @@ fn lookup(name: &str) -> fn() -> Box<dyn Driven> {
       "opt_lat__ser" => opt_lat__ser::make,
       "bool_lat__pari" => bool_lat__pari::make,
       "lat_multi_improve__topar" => lat_multi_improve__topar::make,
-      "count_paths__src1" => count_paths__src1::make,
-      "neg_basic__pari" => neg_basic__pari::make,
-      "neg_basic__init" => neg_basic__init::make,
-      "neg_basic__exppar" => neg_basic__exppar::make,
-      "agg_lattice__par" => agg_lattice__par::make,
+      "count_paths__gen" => count_paths__gen::make,
+      "neg_basic__ser" => neg_basic__ser::make,
+      "neg_basic__src0" => neg_basic__src0::make,
+      "neg_basic__perm2" => neg_basic__perm2::make,
+      "agg_depth__ser" => agg_depth__ser::make,
+      "agg_lattice__to" => agg_lattice__to::make,
       "neg_rec_after__exp" => neg_rec_after__exp::make,
-      "disj__ser" => disj__ser::make,
-      "disj__src2" => disj__src2::make,
-      "disj__permpar" => disj__permpar::make,
-      "pat_args__ser" => pat_args__ser::make,
-      "rep_expr__exp" => rep_expr__exp::make,
-      "neg_in_disj__par" => neg_in_disj__par::make,
-      "mac_basic__mrt" => mac_basic__mrt::make,
-      "mac_basic__srcpar" => mac_basic__srcpar::make,
-      "mac_nested__ser" => mac_nested__ser::make,
-      "mac_disj__exp" => mac_disj__exp::make,
+      "agg_empty__to" => agg_empty__to::make,
+      "disj__mrt" => disj__mrt::make,
+      "disj__srcpar" => disj__srcpar::make,
+      "disj_nested__par" => disj_nested__par::make,
+      "pat_args__exppar" => pat_args__exppar::make,
+      "multi_head_disj__pari" => multi_head_disj__pari::make,
+      "mac_basic__ser" => mac_basic__ser::make,
+      "mac_basic__src0" => mac_basic__src0::make,
+      "mac_basic__exppar" => mac_basic__exppar::make,
+      "mac_nested__pari" => mac_nested__pari::make,
       _ => panic!("no such program variant in this shard: {}", name),
    }
 }
